@@ -17,6 +17,7 @@ package checks
 
 import (
 	"context"
+	"encoding/json"
 	"fmt"
 	"os"
 	"sort"
@@ -351,9 +352,9 @@ func c15Body(seq []string, resp *c15Result) func() {
 
 func runC15(args []string) int {
 	r := rep.New("C15", "model_checking")
+	replayFile := ""
 	if len(args) >= 2 && args[0] == "replay" {
-		fmt.Println("replay: the file holds the event sequence; run `vcheck-sched C15 seq <events...>`:", args[1])
-		return 0
+		replayFile = args[1]
 	}
 	for len(c15Hosts) < 2 {
 		h, err := libp2p.New(libp2p.NoListenAddrs, libp2p.DisableRelay())
@@ -361,6 +362,33 @@ func runC15(args []string) int {
 			rep.HarnessError("libp2p host: %v", err)
 		}
 		c15Hosts = append(c15Hosts, h)
+	}
+	if replayFile != "" {
+		b, err := os.ReadFile(replayFile)
+		if err != nil {
+			rep.HarnessError("replay: %v", err)
+		}
+		var f struct {
+			Replay struct {
+				Sequence []string `json:"sequence"`
+				Schedule []int    `json:"schedule"`
+			} `json:"replay"`
+		}
+		if err := json.Unmarshal(b, &f); err != nil {
+			rep.HarnessError("replay: %v", err)
+		}
+		var res c15Result
+		if len(f.Replay.Schedule) > 0 {
+			x := vsched.Replay(f.Replay.Schedule, c15Body(f.Replay.Sequence, &res))
+			res.deadlock, res.panicked = x.Deadlock, x.Panic
+		} else {
+			res = c15Run(f.Replay.Sequence)
+		}
+		fmt.Printf("sequence %v\noutcome=%s\nviolations=%v\ndeadlock=%v panic=%v\n", f.Replay.Sequence, res.outcome, res.notes, res.deadlock, res.panicked)
+		if len(res.notes) > 0 || res.deadlock || res.panicked != nil {
+			return 1
+		}
+		return 0
 	}
 	if len(args) >= 1 && args[0] == "seq" {
 		res := c15Run(args[1:])
